@@ -217,24 +217,23 @@ func splitCompositeTypes(name string) []string {
 	}
 	var parts []string
 	lessCount := 0
-	segment := ""
-	for _, char := range name {
+	start := 0 // the current segment is name[start:i]; slicing instead of appending char by char keeps this linear
+	for i, char := range name {
 		if char == ',' && lessCount == 0 {
-			if segment != "" {
-				parts = append(parts, strings.TrimSpace(segment))
+			if i > start {
+				parts = append(parts, strings.TrimSpace(name[start:i]))
 			}
-			segment = ""
+			start = i + 1
 			continue
 		}
-		segment += string(char)
 		if char == '<' {
 			lessCount++
 		} else if char == '>' {
 			lessCount--
 		}
 	}
-	if segment != "" {
-		parts = append(parts, strings.TrimSpace(segment))
+	if start < len(name) {
+		parts = append(parts, strings.TrimSpace(name[start:]))
 	}
 	return parts
 }
